@@ -101,3 +101,23 @@ pub fn tl_tracker() -> Arc<Tracker> {
 pub fn tl_val_id() -> u32 {
     crate::ctx::with_tl(|t| t.cur_val)
 }
+
+/// A zero-sized lent value with a destructor. It cannot carry an id: constructions and drops are
+/// counted process-wide and compared per run.
+pub static ZST_CREATED: AtomicU32 = AtomicU32::new(0);
+pub static ZST_DROPPED: AtomicU32 = AtomicU32::new(0);
+
+pub struct ZTok;
+
+impl ZTok {
+    pub fn new() -> Self {
+        ZST_CREATED.fetch_add(1, Ordering::SeqCst);
+        ZTok
+    }
+}
+
+impl Drop for ZTok {
+    fn drop(&mut self) {
+        ZST_DROPPED.fetch_add(1, Ordering::SeqCst);
+    }
+}
